@@ -268,6 +268,17 @@ def gen_cases(tier, rng):
         at(5, license_frame(uid=ini, chan=ch), "sec:mcs")
     at(5, tpkt(x224_data(bytes([8 << 2, 0x80]))), "sec:disconnect")
 
+    # ---- the framing entry itself (tpkt::Client::read is the first parser of every step): every header form with a
+    #      declared length around its own header size, raw on the wire at each step of the conversation
+    raw_hdrs = []
+    for a in (0x00, 0x02, 0x44, 0xc0, 0xff):
+        raw_hdrs += [bytes([a, 0x80, n]) for n in range(0, 6)] + [bytes([a, 0x80 | 1, n]) for n in (0, 1)]
+        raw_hdrs += [bytes([a, n]) for n in range(0, 5)] + [bytes([a, 0x7f]), bytes([a, 0xff, 0xff])]
+    raw_hdrs += [bytes([3, r, 0, n]) for r in (0, 0xff) for n in range(0, 8)] + [bytes([3, 0, 0xff, 0xff]), bytes([3, 0, 0x80, 0x00])]
+    for k in range(6):
+        for h in raw_hdrs:
+            at(k, h, "frame:hdr")
+            at(k, h + bytes(8), "frame:hdr+8")
     # ---- all short byte strings at every parser entry
     one = [b""] + [bytes([a]) for a in range(256)]
     two = [bytes([a, b]) for a in range(256) for b in range(256)]
